@@ -244,4 +244,256 @@ theorem discardMessages_spec : ∀ (f : Nat) (s : St), s.rest.length < f → s.q
       constructor
       · intro _; exact ⟨s, rfl, by rw [this]; rfl, rfl, rfl⟩
       · intro h; omega
+
+
+theorem headerOnce_done (s : St) (hd : s.q.hdrDone = true) (he : s.q.err = none) : headerOnce s = .ok s := by
+  unfold headerOnce; simp [hd, he]
+
+/-- what a successful `decodeFileHeaderOnce` leaves -/
+theorem headerOnce_ok (s s1 : St) (hi : Inv s) (he : s.q.err = none) (h : headerOnce s = .ok s1) :
+    Inv s1 ∧ s1.o = s.o ∧ s1.look = s.look ∧ s1.q.hdrDone = true ∧ s1.q.err = none ∧ s1.rest.length ≤ s.rest.length ∧
+      headerOnce s1 = .ok s1 := by
+  have hh := headerOnce_sat s hi he
+  rw [h] at hh
+  obtain ⟨a, b, c, d, e, f⟩ := hh
+  exact ⟨a, b, c, d, e, f, headerOnce_done s1 d e⟩
+
+theorem decodeBody_after_header (s s1 : St) (hi : Inv s) (he : s.q.err = none) (h : headerOnce s = .ok s1) :
+    decodeBody s1 = decodeBody s := by
+  have h1 := (headerOnce_ok s s1 hi he h).2.2.2.2.2.2
+  unfold decodeBody
+  rw [h, h1]
+
+theorem stepDecode_after_header (s s1 : St) (hi : Inv s) (he : s.q.err = none) (h : headerOnce s = .ok s1) :
+    stepDecode s1 = stepDecode s := by
+  have h1 := (headerOnce_ok s s1 hi he h).2.2.2.2.1
+  unfold stepDecode
+  rw [h1, he]
+  exact decodeBody_after_header s s1 hi he h
+
+theorem stepPeekFileId_after_header (s s1 : St) (hi : Inv s) (he : s.q.err = none) (h : headerOnce s = .ok s1) :
+    stepPeekFileId s1 = stepPeekFileId s := by
+  have h1 := headerOnce_ok s s1 hi he h
+  unfold stepPeekFileId
+  rw [h1.2.2.2.2.1, he]
+  simp only
+  rw [h, h1.2.2.2.2.2.2]
+
+theorem stepPeekHeader_after_header (s s1 : St) (hi : Inv s) (he : s.q.err = none) (h : headerOnce s = .ok s1) :
+    stepPeekHeader s1 = (s1, .header s1.q.hdr, []) ∧ stepPeekHeader s = (s1, .header s1.q.hdr, []) := by
+  have h1 := headerOnce_ok s s1 hi he h
+  unfold stepPeekHeader
+  rw [h1.2.2.2.2.1, he]
+  simp only
+  rw [h, h1.2.2.2.2.2.2]
+  exact ⟨rfl, rfl⟩
+
+/-- `peekLoop` on a state that already holds a file id stops at once -/
+theorem peekLoop_done (f : Nat) (s : St) (h : s.q.fileId.isNone = false) : peekLoop (f + 1) s = (s, [], .ok ()) := by
+  unfold peekLoop; simp [h]
+
+theorem noChk_o (s : St) : (noChk s).o = { s.o with chk := false } := rfl
+
+theorem headerOnce_noChk (s s1 : St) (h : headerOnce s = .ok s1) : headerOnce (noChk s) = .ok (noChk s1) := by
+  unfold headerOnce at h ⊢
+  have e1 : (noChk s).q = s.q := rfl
+  rw [e1]
+  split
+  · rename_i hd
+    simp only [hd, if_true] at h
+    split at h
+    · cases h
+    · cases h; rfl
+  · rename_i hd
+    simp only [hd] at h
+    cases hr : decodeFileHeader s with
+    | ok s' =>
+      rw [hr] at h
+      simp only [Bool.false_eq_true, if_false, Res.ok.injEq] at h
+      subst h
+      rw [decodeFileHeader_noChk s s' hr]
+      rfl
+    | err e => rw [hr] at h; cases h
+    | panic => rw [hr] at h; cases h
+    | hang => rw [hr] at h; cases h
+
+
+theorem Reads.o {s s' : St} (h : Reads s s') : s'.o = s.o := by obtain ⟨_, _, _, _, h, _⟩ := h; exact h
+theorem Reads.hdr {s s' : St} (h : Reads s s') : s'.q.hdr = s.q.hdr := by obtain ⟨_, _, _, _, _, h, _⟩ := h; exact h
+theorem Reads.hdrDone {s s' : St} (h : Reads s s') : s'.q.hdrDone = s.q.hdrDone := by obtain ⟨_, _, _, _, _, _, h, _⟩ := h; exact h
+theorem Reads.err {s s' : St} (h : Reads s s') : s'.q.err = s.q.err := by obtain ⟨_, _, _, _, _, _, _, h⟩ := h; exact h
+
+/-- a successful `Decode` leaves the decoder as new on the rest of the stream, which is shorter -/
+theorem stepDecode_fit (s s' : St) (f : Fit) (evs : List Event) (hi : Inv s) (he : s.q.err = none)
+    (h : stepDecode s = (s', .fit f, evs)) : s' = St.fresh s.o s'.rest ∧ s'.rest.length < s.rest.length ∧ Inv s' := by
+  have hg := stepDecode_good s hi
+  rw [h] at hg
+  refine ⟨?_, ?_, hg.2.2.1⟩
+  all_goals
+    unfold stepDecode at h
+    rw [he] at h
+    simp only at h
+    unfold decodeBody at h
+    cases hr : headerOnce s with
+    | err e => rw [hr] at h; simp [failHeader, fail] at h
+    | panic => rw [hr] at h; simp [failHeader, fail] at h
+    | hang => rw [hr] at h; simp [failHeader, fail] at h
+    | ok s1 =>
+      rw [hr] at h
+      simp only at h
+      have h1 := headerOnce_ok s s1 hi he hr
+      have hm := decodeMessages_sat (fuelOf s1) s1 h1.1 (by simp [fuelOf])
+      rcases hd : decodeMessages (fuelOf s1) s1 with ⟨s2, evs2, r⟩
+      rw [hd] at hm h
+      obtain ⟨_, i2, r2, _⟩ := hm
+      simp only at i2 r2 h
+      cases r with
+      | err e => simp [fail] at h
+      | panic => simp [fail] at h
+      | hang => simp [fail] at h
+      | ok u =>
+        simp only at h
+        have hc := decodeCRC_sat s2 i2
+        cases hcr : decodeCRC s2 with
+        | err e => rw [hcr] at h; simp [fail] at h
+        | panic => rw [hcr] at hc; exact hc.elim
+        | hang => rw [hcr] at hc; exact hc.elim
+        | ok s3 =>
+          rw [hcr] at hc h
+          obtain ⟨c0, c1, g1, g2, _⟩ := hc
+          simp only [Prod.mk.injEq] at h
+          obtain ⟨hs', _, _⟩ := h
+          subst hs'
+          first
+            | (show release (resetSeq s3) = St.fresh s.o s3.rest
+               have : s3.o = s.o := by rw [g2]; show s2.o = s.o; rw [r2.o, h1.2.1]
+               simp only [release, resetSeq, St.fresh, this])
+            | (show s3.rest.length < s.rest.length
+               have l1 := h1.2.2.2.2.2.1
+               have l2 := r2.len
+               rw [g1] at l2
+               simp only [List.length_append, List.length_cons, List.length_nil] at l2
+               omega)
+
+
+theorem Opts.restore_chk (o : Opts) : { ({ o with chk := false } : Opts) with chk := o.chk } = o := by cases o; rfl
+
+/-- the tail of `Discard` once the header is decoded (checksums off): messages, the two CRC bytes, `reset()`; checksum option restored -/
+def discardTail (chk : Bool) (s1 : St) : StepOut :=
+  let restore (t : St) : St := { t with o := { t.o with chk := chk } }
+  match discardMessages (fuelOf s1) s1 with
+  | .ok s2 =>
+    match readN 2 s2 with
+    | .ok (_, s3) => (restore (resetSeq s3), .done, [])
+    | r => let (s', o) := fail s2 r; (restore s', o, [])
+  | r => let (s', o) := fail s1 r; (restore s', o, [])
+
+theorem stepDiscard_eq (s s1 : St) (he : s.q.err = none) (h : headerOnce (noChk s) = .ok s1) :
+    stepDiscard s = discardTail s.o.chk s1 := by
+  unfold stepDiscard discardTail
+  rw [he]
+  simp only
+  show (match headerOnce (noChk s) with | .ok s1 => _ | r => _) = _
+  rw [h]
+  rfl
+
+/-- where the tail of `Discard` ends: behind the data window and the two CRC bytes, the decoder as new — or at the end of the stream -/
+theorem discardTail_spec (chk : Bool) (s1 : St) (hc : s1.q.cur ≤ s1.q.hdr.dataSize) (hd : s1.q.hdr.dataSize < 4294967296) :
+    let k := s1.q.hdr.dataSize - s1.q.cur
+    (k + 2 ≤ s1.rest.length →
+      discardTail chk s1 = ({ o := { s1.o with chk := chk }, rest := s1.rest.drop (k + 2), q := {}, look := {} }, .done, [])) ∧
+    (s1.rest.length < k + 2 → (discardTail chk s1).2.1 = .err .eof ∧ (discardTail chk s1).1.q.err = some .eof) := by
+  intro k
+  have hs := discardMessages_spec (fuelOf s1) s1 (by simp [fuelOf]) hc hd
+  unfold discardTail
+  constructor
+  · intro hlen
+    obtain ⟨s2, h1, h2, h3, _⟩ := hs.1 (by omega)
+    rw [h1]
+    simp only
+    rw [readN_eq 2 s2 (by decide)]
+    have h2' : 2 ≤ s2.rest.length := by rw [h2, List.length_drop]; omega
+    rw [if_pos h2']
+    simp only [resetSeq, h3, h2, List.drop_drop]
+    rfl
+  · intro hlen
+    by_cases hk : k ≤ s1.rest.length
+    · obtain ⟨s2, h1, h2, _, _⟩ := hs.1 hk
+      rw [h1]
+      simp only
+      rw [readN_eq 2 s2 (by decide)]
+      have h2' : ¬ 2 ≤ s2.rest.length := by rw [h2, List.length_drop]; omega
+      rw [if_neg h2']
+      exact ⟨rfl, rfl⟩
+    · rw [hs.2 (by omega)]
+      exact ⟨rfl, rfl⟩
+
+
+/-- the tail of `Decode` after the record loop: CRC, `reset()`, release -/
+def decodeTail (l : LoopOut) : StepOut :=
+  match l with
+  | (s2, evs, .ok ()) =>
+    match decodeCRC s2 with
+    | .ok s3 => (release (resetSeq s3), .fit ⟨s3.q.hdr, s3.q.msgs.reverse, s3.q.crc⟩, evs)
+    | r => let (s', o) := fail s2 r; (release s', o, evs)
+  | (s2, evs, r) => let (s', o) := fail s2 r; (release s', o, evs)
+
+theorem decodeBody_eq (s s1 : St) (h : headerOnce s = .ok s1) :
+    decodeBody s = decodeTail (decodeMessages (fuelOf s1) s1) := by
+  unfold decodeBody decodeTail
+  rw [h]
+  rfl
+
+/-- the tail only passes the listener calls through -/
+theorem decodeTail_events (s2 : St) (evs pre : List Event) (r : Res Unit) :
+    decodeTail (s2, pre ++ evs, r) = ((decodeTail (s2, evs, r)).1, (decodeTail (s2, evs, r)).2.1, pre ++ (decodeTail (s2, evs, r)).2.2) := by
+  unfold decodeTail
+  cases r with
+  | ok u => simp only; cases decodeCRC s2 <;> rfl
+  | err e => rfl
+  | panic => rfl
+  | hang => rfl
+
+/-- **`PeekFileId` is transparent for `Decode`** (when the peek stayed inside the data window): the decoder state,
+the result and the listener calls of peek + decode together are those of a decode alone -/
+theorem decode_after_peek (s s1 s2 : St) (evs1 : List Event) (hi : Inv s) (he : s.q.err = none)
+    (hh : headerOnce s = .ok s1) (hp : peekLoop (fuelOf s1) s1 = (s2, evs1, .ok ())) (hnp : peekPast (fuelOf s1) s1 = false) :
+    stepDecode s = ((stepDecode s2).1, (stepDecode s2).2.1, evs1 ++ (stepDecode s2).2.2) := by
+  have h1 := headerOnce_ok s s1 hi he hh
+  have hpl := peekLoop_sat (fuelOf s1) s1 h1.1 (by simp [fuelOf])
+  rw [hp] at hpl
+  obtain ⟨_, i2, r2, _⟩ := hpl
+  simp only at i2 r2
+  have e2 : s2.q.err = none := by rw [r2.err]; exact h1.2.2.2.2.1
+  have d2 : s2.q.hdrDone = true := by rw [r2.hdrDone]; exact h1.2.2.2.1
+  have hs := loop_split s1.rest.length s1 rfl h1.1 hnp
+  rw [hp] at hs
+  unfold stepDecode
+  rw [he, e2]
+  simp only
+  rw [decodeBody_eq s s1 hh, decodeBody_eq s2 s2 (headerOnce_done s2 d2 e2), hs]
+  simp only [contAfterPeek]
+  rcases decodeMessages (fuelOf s2) s2 with ⟨sf, evs2, r⟩
+  exact decodeTail_events sf evs2 evs1 r
+
+/-- a `PeekFileId` that fails inside the data window fails where `Decode` fails, with the same error and listener calls -/
+theorem decode_when_peek_fails (s s1 s2 : St) (evs1 : List Event) (e : Err) (hi : Inv s) (he : s.q.err = none)
+    (hh : headerOnce s = .ok s1) (hp : peekLoop (fuelOf s1) s1 = (s2, evs1, .err e)) (hnp : peekPast (fuelOf s1) s1 = false) :
+    (stepDecode s).2 = (.err e, evs1) := by
+  have h1 := headerOnce_ok s s1 hi he hh
+  have hs := loop_split s1.rest.length s1 rfl h1.1 hnp
+  rw [hp] at hs
+  unfold stepDecode
+  rw [he]
+  simp only
+  rw [decodeBody_eq s s1 hh, hs]
+  rfl
+
+theorem decode_when_header_fails (s : St) (e : Err) (he : s.q.err = none) (hh : headerOnce s = .err e) :
+    (stepDecode s).2 = (.err e, []) := by
+  unfold stepDecode decodeBody
+  rw [he]
+  simp only
+  rw [hh]
+  rfl
 end Fit.DecApi
